@@ -84,6 +84,88 @@ def httpNext : HSt → P (List HReq × HSt)
 
 def httpProxy : Proto HSt HReq := { next := httpNext, finish := fun _ _ => [] }
 
+/-! ## the http service and the datagram services of C04 (they reuse the framing above)
+
+`services/http.go`: one event per request with method, target and the first 1024 bytes of the body.
+`services/tftp.go`, `services/echo.go`, `services/counterstrike.go`, `services/memcached.go` (UDP: 8-byte frame
+header, then the text protocol): one datagram, decoded on its own. -/
+
+def httpEv (m t body : Bytes) : Ev := { kind := "http", fields := [m, t, body.take 1024] }
+
+/-- the head of a request: method, target and announced body length; `none` = malformed (connection ends) -/
+def headInfo (ls : List Bytes) : Option (Bytes × Bytes × Nat) :=
+  match ls with
+  | [] => none
+  | rl :: hs =>
+    match splitOn sp rl with
+    | [m, t, _] =>
+      match headerValue nContentLength hs with
+      | none => some (m, t, 0)
+      | some v =>
+        match digitsVal v with
+        | none => none
+        | some n => some (m, t, n)
+    | _ => none
+
+def httpHead : P (Option (Bytes × Bytes × Nat)) := fun b =>
+  bindP (headLines (b.length + 1)) (fun ls => pureP (headInfo ls)) b
+
+/-- the service reports a request when its body is complete — or, at the end of the stream, with what arrived -/
+inductive HSSt where
+  | open
+  | body (m t : Bytes) (n : Nat)      -- waiting for the n + 1 bytes of the body
+  | closed
+  deriving Repr, DecidableEq
+
+def httpSvcNext : HSSt → P (List Ev × HSSt)
+  | .closed => fun _ => none
+  | .open => bindP httpHead (fun r => match r with
+      | some (m, t, 0) => pureP ([httpEv m t []], .open)
+      | some (m, t, n + 1) => pureP ([], .body m t n)
+      | none => pureP ([], .closed))
+  | .body m t n => bindP (takeN (n + 1)) (fun body => pureP ([httpEv m t body], .open))
+
+def httpSvcFinish : HSSt → Bytes → List Ev
+  | .body m t _, buf => [httpEv m t buf]
+  | _, _ => []
+
+def httpSvc : Proto HSSt Ev := { next := httpSvcNext, finish := httpSvcFinish }
+
+/-- bytes up to (not including) the first NUL, and what follows it; none without a NUL -/
+def cstr (b : Bytes) : Option (Bytes × Bytes) :=
+  match cstrAux [] b with
+  | some (s, r) => some (s.dropLast, r)
+  | none => none
+
+def dgramEvents (svc : String) (d : Bytes) : List Ev :=
+  match svc with
+  | "echou" => [{ kind := "echo", fields := [d] }]
+  | "tftp" =>
+    match d with
+    | _ :: op :: rest =>
+      if op == 1 || op == 2 then
+        match cstr rest with
+        | some (name, r1) =>
+          match cstr r1 with
+          | some (mode, _) => [{ kind := "tftp", fields := [(if op == 1 then str "tftp-read" else str "tftp-write"), name, mode] }]
+          | none => []
+        | none => []
+      else []
+    | _ => []
+  | "counterstrike" =>
+    if d.length < 5 then []
+    else if d.take 4 == [255, 255, 255, 255] || d.take 4 == [255, 255, 255, 254] then
+      match d.drop 4 with
+      | q :: _ =>
+        if q == 0x54 then [{ kind := "cs", fields := [str "a2s_info", d] }]
+        else if q == 0x55 then [{ kind := "cs", fields := [str "a2s_player", d] }]
+        else if q == 0x56 then [{ kind := "cs", fields := [str "a2s_rules", d] }]
+        else []
+      | [] => []
+    else []
+  | "memcachedu" => eventsOf memcached .idle [d.drop 8]
+  | _ => []
+
 /-! ## line protocol
 `relay dial <host hex> <local port>` → `<host hex>:<port hex>`
 `relay copy <segment hex> ...` → bytes written to the backend (hex)
@@ -108,6 +190,20 @@ def driver (args : List String) : String :=
     | some ss =>
       let evs := eventsOf httpProxy .open ss
       if evs.isEmpty then "-" else " ".intercalate (evs.map fun q => ",".intercalate [hex q.method, hex q.target, hex q.body])
+    | none => "bad-op"
+  | _ => "bad-op"
+
+/-- `seg http <segment hex> ...` and `dgram <service> <hex>` of the C04 stream -/
+def segHttpDriver (segsHex : List String) : String :=
+  match segsHex.mapM unhex with
+  | some ss => showEvs (eventsOf httpSvc .open ss)
+  | none => "bad-op"
+
+def dgramDriver (args : List String) : String :=
+  match args with
+  | [svc, h] =>
+    match unhex h with
+    | some d => showEvs (dgramEvents svc d)
     | none => "bad-op"
   | _ => "bad-op"
 
